@@ -1,6 +1,7 @@
 // h_tb: on-demand tablebase monitor (C12; produces verified DTM dumps used by C13 and C04).
 //   h_tb sweep <CLASS> <threads> [dumpfile]   every placement x both sides through probeDTM (both storage back
 //                                             ends), Bellman-equation check with an independent mini rules engine
+//   h_tb solve <CLASS> <threads> <dumpfile>   independent retrograde solution (mini rules engine only), self-checked, written as dump
 //   h_tb abort <CLASS> <seed> <n> <dumpfile>  aborted generations inside a TranspositionTable, then probes vs dump
 //   h_tb scope <seed> <n>                     out-of-scope positions must be "not found"
 //   h_tb query <dumpfile>...                  line server: "<fen>" -> "win N" | "loss N" | "draw" | "unknown"
@@ -230,39 +231,11 @@ static void dumpAll(const Mat& m, Dump& d, int threads, ProbeF probe, std::atomi
     });
 }
 
-static int runSweep(const std::string& cls, int threads, const std::string& dumpFile) {
-    Mat m;
-    if (!parseClass(cls, m)) { fprintf(stderr, "bad class\n"); return 2; }
-    setCrumb("sweep " + cls);
-    // back end 1: private vector
-    VectorStorage vs;
-    TBGenerator<VectorStorage> gen(vs, m.pc);
-    RelaxedShared<S64> noLimit(-1);
-    if (!gen.generate(noLimit, false)) { rep.viol("generate-failed", cls + " VectorStorage"); rep.finish(); return 0; }
-    Dump d1;
-    std::atomic<long long> np(0), nf(0);
-    dumpAll(m, d1, threads, [&](const Position& pos, int& score) { return gen.probeDTM(pos, 0, score); }, np, nf);
-    rep.add("probes_vector", np);
-    // back end 2: inside a transposition table, as the search does it
-    TranspositionTable tt(1 << 20);     // 16 MB
-    {
-        int s[4]; int k = 0; for (size_t i = 0; i < m.men.size(); i++) { s[i] = (int)(i * 9 + 1); k++; }
-        s[0] = 0; s[m.bkIdx] = 63;
-        Position root; buildPosition(m, s, true, root);
-        RelaxedShared<S64> nl(-1);
-        if (!tt.updateTB(root, nl)) { rep.viol("updateTB-failed", cls); rep.finish(); return 0; }
-    }
-    Dump d2;
-    std::atomic<long long> np2(0), nf2(0);
-    dumpAll(m, d2, threads, [&](const Position& pos, int& score) { return tt.probeDTM(pos, 0, score); }, np2, nf2);
-    rep.add("probes_tt", np2);
-    long long diff = 0;
-    for (size_t i = 0; i < d1.v.size(); i++) if (d1.v[i] != d2.v[i]) diff++;
-    if (diff) rep.viol("backends-differ", cls + ": " + std::to_string(diff) + " entries differ between VectorStorage and TTStorage");
-
-    // Bellman equations on d1
-    std::atomic<long long> nChecked(0), nWin(0), nLoss(0), nDraw(0), nBad(0), nMoves(0);
-    std::atomic<int> maxWin(0), maxLoss(0);
+// Bellman equations on a dump: every legal placement's value must follow from its successors' values (mini rules engine)
+struct BellStats { std::atomic<long long> nChecked{0}, nWin{0}, nLoss{0}, nDraw{0}, nMoves{0}; std::atomic<int> maxWin{0}, maxLoss{0}; };
+static void bellmanCheck(const Mat& m, const Dump& d1, const std::string& cls, int threads, BellStats& bs, const char* kind) {
+    std::atomic<long long>& nChecked = bs.nChecked; std::atomic<long long>& nWin = bs.nWin; std::atomic<long long>& nLoss = bs.nLoss;
+    std::atomic<long long>& nDraw = bs.nDraw; std::atomic<long long>& nMoves = bs.nMoves; std::atomic<int>& maxWin = bs.maxWin; std::atomic<int>& maxLoss = bs.maxLoss;
     parallelFor(threads, 64, [&](int wk) {
         Mini mini; long long chk = 0, w = 0, l = 0, dr = 0, mv = 0; int mw = 0, ml = 0;
         forPlacements(m, wk, [&](const int* s0) {
@@ -297,7 +270,7 @@ static int runSweep(const std::string& cls, int threads, const std::string& dump
                 else expect = (int16_t)(-(maxOppWin + 1));
                 if (childMissing || expect != val) {
                     std::lock_guard<std::mutex> L(repMutex);
-                    rep.viol("bellman", cls + " " + fenOf(m, s, wtm) + " table says " + std::to_string(val) + " equations say " + std::to_string(expect) + (childMissing ? " (child missing)" : "") +
+                    rep.viol(kind, cls + " " + fenOf(m, s, wtm) + " table says " + std::to_string(val) + " equations say " + std::to_string(expect) + (childMissing ? " (child missing)" : "") +
                              "  [encoding: 0 draw, +n win in n, -(n+1) lost in n]");
                 }
                 if (val > 0) { w++; mw = std::max(mw, (int)val); } else if (val < 0) { l++; ml = std::max(ml, -val - 1); } else dr++;
@@ -307,12 +280,167 @@ static int runSweep(const std::string& cls, int threads, const std::string& dump
         int x = maxWin.load(); while (mw > x && !maxWin.compare_exchange_weak(x, mw)) {}
         x = maxLoss.load(); while (ml > x && !maxLoss.compare_exchange_weak(x, ml)) {}
     });
+}
+
+static int runSweep(const std::string& cls, int threads, const std::string& dumpFile) {
+    Mat m;
+    if (!parseClass(cls, m)) { fprintf(stderr, "bad class\n"); return 2; }
+    setCrumb("sweep " + cls);
+    // back end 1: private vector
+    VectorStorage vs;
+    TBGenerator<VectorStorage> gen(vs, m.pc);
+    RelaxedShared<S64> noLimit(-1);
+    if (!gen.generate(noLimit, false)) { rep.viol("generate-failed", cls + " VectorStorage"); rep.finish(); return 0; }
+    Dump d1;
+    std::atomic<long long> np(0), nf(0);
+    dumpAll(m, d1, threads, [&](const Position& pos, int& score) { return gen.probeDTM(pos, 0, score); }, np, nf);
+    rep.add("probes_vector", np);
+    // back end 2: inside a transposition table, as the search does it
+    TranspositionTable tt(1 << 20);     // 16 MB
+    {
+        int s[4]; int k = 0; for (size_t i = 0; i < m.men.size(); i++) { s[i] = (int)(i * 9 + 1); k++; }
+        s[0] = 0; s[m.bkIdx] = 63;
+        Position root; buildPosition(m, s, true, root);
+        RelaxedShared<S64> nl(-1);
+        if (!tt.updateTB(root, nl)) { rep.viol("updateTB-failed", cls); rep.finish(); return 0; }
+    }
+    Dump d2;
+    std::atomic<long long> np2(0), nf2(0);
+    dumpAll(m, d2, threads, [&](const Position& pos, int& score) { return tt.probeDTM(pos, 0, score); }, np2, nf2);
+    rep.add("probes_tt", np2);
+    long long diff = 0;
+    for (size_t i = 0; i < d1.v.size(); i++) if (d1.v[i] != d2.v[i]) diff++;
+    if (diff) rep.viol("backends-differ", cls + ": " + std::to_string(diff) + " entries differ between VectorStorage and TTStorage");
+
+    BellStats bs;
+    bellmanCheck(m, d1, cls, threads, bs, "bellman");
+    std::atomic<long long>& nChecked = bs.nChecked; std::atomic<long long>& nWin = bs.nWin; std::atomic<long long>& nLoss = bs.nLoss;
+    std::atomic<long long>& nDraw = bs.nDraw; std::atomic<long long>& nMoves = bs.nMoves; std::atomic<int>& maxWin = bs.maxWin; std::atomic<int>& maxLoss = bs.maxLoss;
     rep.add("positions_checked", nChecked); rep.add("wins", nWin); rep.add("losses", nLoss); rep.add("draws", nDraw); rep.add("moves_followed", nMoves);
     rep.stat["max_win_dtm"] = maxWin; rep.stat["max_loss_dtm"] = maxLoss;
     rep.add("classes");
     printf("SAMPLE class %s: %lld legal placements x side checked, %lld wins (max %d) %lld losses (max %d) %lld draws\n", cls.c_str(),
            (long long)nChecked, (long long)nWin, (int)maxWin, (long long)nLoss, (int)maxLoss, (long long)nDraw);
     if (rep.nViol == 0 && !dumpFile.empty()) d1.save(dumpFile);
+    rep.finish();
+    return 0;
+}
+
+// ---------------------------------------------------------------------------------------------
+// independent retrograde solver (no engine code): the DTM oracle of C13 and C04. Level-synchronous backward induction from
+// the mates over the labelled placement space of the dump (men on board or captured), predecessors by un-moves of the mini
+// rules engine; the result is then self-checked with the forward Bellman equations above.
+
+static const int16_t UNK = 0x7ffd;
+
+template <typename F> static void forPreds(const Mat& m, Mini& x, bool wtm, F f) {
+    // x: legal placement with side wtm to move; the side !wtm made the last move. f(s[]) for every candidate predecessor
+    // placement (side !wtm to move); the caller filters illegal ones through the dump.
+    static const int KD[8][2] = {{1,0},{1,1},{0,1},{-1,1},{-1,0},{-1,-1},{0,-1},{1,-1}};
+    static const int ND[8][2] = {{1,2},{2,1},{2,-1},{1,-2},{-1,-2},{-2,-1},{-2,1},{-1,2}};
+    bool mover = !wtm;
+    int n = x.n;
+    for (int i = 0; i < n; i++) {
+        if (m.men[i].white != mover || x.sq[i] == CAP) continue;
+        int t = x.sq[i], x0 = t & 7, y0 = t >> 3;
+        auto from = [&](int s) {
+            int r[4]; for (int j = 0; j < n; j++) r[j] = x.sq[j];
+            r[i] = s; f(r);
+            for (int c = 0; c < n; c++) if (m.men[c].white != mover && m.men[c].kind != 'K' && x.sq[c] == CAP) { r[c] = t; f(r); r[c] = CAP; }
+        };
+        char k = m.men[i].kind;
+        if (k == 'K' || k == 'N') {
+            const int (*D)[2] = k == 'K' ? KD : ND;
+            for (int d = 0; d < 8; d++) { int xx = x0 + D[d][0], yy = y0 + D[d][1]; if (xx >= 0 && xx < 8 && yy >= 0 && yy < 8 && x.board[yy * 8 + xx] == -1) from(yy * 8 + xx); }
+        } else {
+            for (int d = 0; d < 8; d++) {
+                bool diag = KD[d][0] != 0 && KD[d][1] != 0;
+                if (k == 'R' && diag) continue;
+                if (k == 'B' && !diag) continue;
+                int xx = x0 + KD[d][0], yy = y0 + KD[d][1];
+                while (xx >= 0 && xx < 8 && yy >= 0 && yy < 8 && x.board[yy * 8 + xx] == -1) { from(yy * 8 + xx); xx += KD[d][0]; yy += KD[d][1]; }
+            }
+        }
+    }
+}
+
+static int runSolve(const std::string& cls, int threads, const std::string& dumpFile) {
+    Mat m;
+    if (!parseClass(cls, m)) { fprintf(stderr, "bad class\n"); return 2; }
+    setCrumb("solve " + cls);
+    const int n = (int)m.men.size();
+    Dump d; d.init(m);
+    std::unique_ptr<std::atomic<uint8_t>[]> cnt(new std::atomic<uint8_t>[d.v.size()]);
+    std::vector<std::vector<uint32_t>> lost(threads), won(threads);
+    std::mutex mu;
+    std::vector<uint32_t> L, W;
+    auto decode = [&](uint32_t idx, int* s, bool& wtm) { wtm = idx & 1; idx >>= 1; for (int i = 0; i < n; i++) { s[i] = idx % 65; idx /= 65; } };
+    // init: legality, mates, stalemates, successor counts
+    parallelFor(threads, 64, [&](int wk) {
+        Mini mini; std::vector<uint32_t> l0;
+        forPlacements(m, wk, [&](const int* s) {
+            if (Mini::adjacent(s[0], s[m.bkIdx])) return;
+            mini.set(m, s);
+            for (int wtm = 0; wtm < 2; wtm++) {
+                if (mini.kingAttacked(!wtm)) continue;
+                int nLegal = 0; mini.legalMoves(wtm, [&](int, int, int) { nLegal++; });
+                size_t idx = d.index(s, wtm);
+                if (nLegal == 0) { if (mini.kingAttacked(wtm)) { d.v[idx] = -1; l0.push_back((uint32_t)idx); } else d.v[idx] = 0; }
+                else { d.v[idx] = UNK; cnt[idx].store((uint8_t)nLegal, std::memory_order_relaxed); }
+            }
+        });
+        std::lock_guard<std::mutex> G(mu); L.insert(L.end(), l0.begin(), l0.end());
+    });
+    long long edges = 0; int level = 0;
+    while (!L.empty()) {
+        level++;
+        // wins in `level`: predecessors of positions lost in level-1
+        std::atomic<size_t> next(0); std::atomic<long long> e(0);
+        W.clear();
+        {
+            std::vector<std::thread> ts;
+            for (int t = 0; t < threads; t++) ts.emplace_back([&]() {
+                Mini mini; std::vector<uint32_t> out; long long ee = 0;
+                for (;;) { size_t a = next.fetch_add(256); if (a >= L.size()) break;
+                    for (size_t q = a; q < std::min(L.size(), a + 256); q++) {
+                        int s[4]; bool wtm; decode(L[q], s, wtm); mini.set(m, s);
+                        forPreds(m, mini, wtm, [&](const int* r) { size_t idx = d.index(r, !wtm); ee++; int16_t exp = UNK;
+                            if (__atomic_compare_exchange_n(&d.v[idx], &exp, (int16_t)level, false, __ATOMIC_RELAXED, __ATOMIC_RELAXED)) out.push_back((uint32_t)idx); });
+                    } }
+                e += ee; std::lock_guard<std::mutex> G(mu); W.insert(W.end(), out.begin(), out.end());
+            });
+            for (auto& t : ts) t.join();
+        }
+        // losses in `level`: every successor is a win for the opponent, the last of them found at this level
+        next = 0; L.clear();
+        {
+            std::vector<std::thread> ts;
+            for (int t = 0; t < threads; t++) ts.emplace_back([&]() {
+                Mini mini; std::vector<uint32_t> out; long long ee = 0;
+                for (;;) { size_t a = next.fetch_add(256); if (a >= W.size()) break;
+                    for (size_t q = a; q < std::min(W.size(), a + 256); q++) {
+                        int s[4]; bool wtm; decode(W[q], s, wtm); mini.set(m, s);
+                        forPreds(m, mini, wtm, [&](const int* r) { size_t idx = d.index(r, !wtm); ee++;
+                            if (__atomic_load_n(&d.v[idx], __ATOMIC_RELAXED) != UNK) return;
+                            if (cnt[idx].fetch_sub(1, std::memory_order_relaxed) == 1) { __atomic_store_n(&d.v[idx], (int16_t)(-(level + 1)), __ATOMIC_RELAXED); out.push_back((uint32_t)idx); } });
+                    } }
+                e += ee; std::lock_guard<std::mutex> G(mu); L.insert(L.end(), out.begin(), out.end());
+            });
+            for (auto& t : ts) t.join();
+        }
+        edges += e;
+        if (W.empty()) break;
+    }
+    for (auto& v : d.v) if (v == UNK) v = 0;
+    rep.add("unmove_edges", edges); rep.stat["levels"] = level;
+    // self-check of the oracle with forward moves
+    BellStats bs;
+    bellmanCheck(m, d, cls, threads, bs, "oracle-selfcheck");
+    rep.add("positions_checked", bs.nChecked); rep.add("wins", bs.nWin); rep.add("losses", bs.nLoss); rep.add("draws", bs.nDraw); rep.add("moves_followed", bs.nMoves);
+    rep.stat["max_win_dtm"] = bs.maxWin; rep.stat["max_loss_dtm"] = bs.maxLoss; rep.add("classes");
+    printf("SAMPLE independent solution of %s: %lld legal placements x side, %lld wins (max %d) %lld losses (max %d) %lld draws, %d levels\n", cls.c_str(),
+           (long long)bs.nChecked, (long long)bs.nWin, (int)bs.maxWin, (long long)bs.nLoss, (int)bs.maxLoss, (long long)bs.nDraw, level);
+    if (rep.nViol == 0 && !dumpFile.empty()) d.save(dumpFile);
     rep.finish();
     return 0;
 }
@@ -530,6 +658,7 @@ int main(int argc, char** argv) {
     installCrumb();
     ComputerPlayer::initEngine();
     std::string mode = argv[1];
+    if (mode == "solve" && argc >= 5) return runSolve(argv[2], atoi(argv[3]), argv[4]);
     if (mode == "sweep" && argc >= 4) return runSweep(argv[2], atoi(argv[3]), argc > 4 ? argv[4] : "");
     if (mode == "abort" && argc >= 6) return runAbort(argv[2], strtoull(argv[3], 0, 10), atoi(argv[4]), argv[5]);
     if (mode == "scope" && argc >= 4) return runScope(strtoull(argv[2], 0, 10), atoi(argv[3]));
